@@ -27,7 +27,9 @@ REGISTRY["C14"] = {
              "again and again with periods in between in which it does not listen; one event at a time, the firing observed at the fixpoint, and the invariants "
              "(F<=min c_i, all c_i=k => F=k, at most one firing per event, no firing on a non-matching event or while not listening) evaluated over the events delivered "
              "while the node listened - matches in surplus at a firing keep counting for later periods, events outside a listening period never count; "
-             "non-trivial = >=2 listening periods and >=2 firings."),
+             "non-trivial = >=2 listening periods and >=2 firings. TestC14Ring: the node in a ring without activities. TestC14Withdrawn: the node (1..3 definitions, multiple or parallel-multiple) is one alternative of an "
+             "event-based gateway in a loop, loses 1..3 rounds to the other alternative and then wins 1..3: in a winning round it continues exactly once - on the first match (multiple) or when every definition "
+             "has been matched once (parallel-multiple), the definitions' events delivered in any order."),
     "assumptions": ["definitions of one catch event have distinct references (two definitions matching the same event are outside the statement)"],
     "tests": [
         {"name": "TestC14Exhaustive", "mode": "plain", "shards": {"quick": 1, "thorough": 1}},
@@ -38,6 +40,7 @@ REGISTRY["C14"] = {
         {"name": "TestC14Loop", "mode": "rapid", "checks": {"quick": 300, "thorough": 6000},
          "shards": {"quick": 4, "thorough": 16}},
         {"name": "TestC14Ring", "checks": {"quick": 150, "thorough": 5000}, "shards": {"quick": 4, "thorough": 8}},
+        {"name": "TestC14Withdrawn", "checks": {"quick": 150, "thorough": 5000}, "shards": {"quick": 4, "thorough": 8}},
         # catch events with a timer AND a signal definition (plain multiple / parallel-multiple) in two instances of one parsed model that share one
         # timer definition builder, one tracer and one event bus: the C13 two-instance campaign, run here as part of this check
         {"name": "TestC13TwoInstances", "pkg": "props/c13", "label": "timer-and-signal-two-instances", "checks": {"quick": 300, "thorough": 4000}, "shards": {"quick": 4, "thorough": 8}},
@@ -239,13 +242,15 @@ REGISTRY["C11"] = {
                    "concurrent events. After every stimulus: quiescence; every ConsumeEvent call must have returned (parked at the fixpoint = blocks forever); the "
                    "new task requests must be exactly those of the listeners the model releases (each waiting token once per delivered event, nothing for "
                    "non-matching or not-armed deliveries); completion iff the model is empty. Boundary catch events (attached to tasks that hold one or two tokens, re-activated hosts, "
-                   "repeated and racing events) are exercised by re-running the unrestricted C10 campaign as part of this check."),
+                   "repeated and racing events) are exercised by re-running the unrestricted C10 campaign as part of this check. TestC11ThrowStart: the instance is started by triggering an intermediate throw event "
+                   "(ThrowAll or StartWith with the element) instead of a start event; 1..3 catch events (signal / message) behind it, 1..6 events delivered one by one: the tasks requested are exactly those behind the listening catch events an event matches."),
     "level_note": EVENT_TRUST,
     "technique": "rapid property test over generated event/answer scripts, lock-step differential against the token-game model, stuck detection by goroutine snapshot",
     "rule": ("Distinct = descriptor (shape, catch definitions, script, perturbation seed). Non-trivial = >=2 events delivered of which at least one released a listener and at least one had no effect "
              "(non-matching or nothing armed), or a catch event on a branch that is never taken is present."),
     "tests": [
         {"name": "TestC11Delivery", "checks": {"quick": 150, "thorough": 5000}, "shards": {"quick": 16, "thorough": 16}, "gomaxprocs": [4, 2, 16, 1]},
+        {"name": "TestC11ThrowStart", "checks": {"quick": 200, "thorough": 6000}, "shards": {"quick": 2, "thorough": 8}},
         # boundary catch events are catch events too: the C10 campaign that keeps several tokens in a host and repeated events in the domain
         # (failures are attributed to findings C10-F1/F2/F3 only if the run agrees step by step with the model of those deviations)
         {"name": "TestC10Boundary", "pkg": "props/c10", "label": "boundary-catch-events", "env": {"VERIF_UNRESTRICTED": "1"},
